@@ -106,6 +106,13 @@ def check(ctx):
         if h != hm or I is None or P is None or M is None:
             raise RuntimeError("C13: malformed harness/model output at case %d: %r / %r" % (idx, rl[:200], ml[:200]))
         s = strs[idx]
+        if I == "PANIC":
+            # some Span operation of pest_typed panicked on this string (pest's does not): e.g. a constructor let an invalid range
+            # through and a later slicing tripped over it
+            t3_bad += 1
+            if t3_bad <= 3:
+                ctx.violation("a Span operation panics on a string on which pest::Span answers every call", {"input_hex": h, "input": s, "pest": P[:400]})
+            continue
         sec = sections(I)
         nvalid = sec["new"].count("1")
         nget = int(sec["get"].rsplit(":", 1)[1]) if sec["get"].startswith("#") else 0
